@@ -11,8 +11,9 @@ def run(ver):
     ver.add_mc(res, f"MC_C03 MaxCalls={mc}: every method x boundary arguments, every call sequence over a 14-call alphabet; invariants SingleOK BalancedOK OpenOK OnlyBalanced")
     core.replay_cases(ver, binp, res["out_path"], wd, "mc_c03")
     core.validate_traces(ver, binp, "c03", "Trace_C03", wd, gen_args=["20000"])
+    core.table_sweep(ver, binp, wd, {"enc"})
     ver.assumptions += ["TLC evaluates the TLA+ operators correctly",
-                        "the 2^32 sweeps of the quantifier are replaced by exhaustive 8/16-bit ranges (16-bit strided in quick), +-3 around every power of two, 0..2^17 and seeded random arguments",
+                        "the 2^32 sweep of the quantifier runs against the class table of MC_Tables (every third argument in thorough, a 1/4099 stratum in quick) next to exhaustive 8/16-bit ranges, +-3 around every power of two, 0..2^17 and seeded random arguments validated by TLC",
                         "determinism is checked by executing every call sequence twice",
                         "the built-in Encode impls are covered by the C01/C07 events (bytes = reference encoding of the value)"]
     return ver.finish("model_checking",
